@@ -79,6 +79,7 @@ struct Outcome {
   std::string physical; // empty or the offending quantity
   bool changed = false;
   bool dt_limit_differs = false;
+  std::string nonfinite_origin; // stage of the step in which the first non-finite value appeared
 };
 
 struct Finding {
@@ -180,6 +181,15 @@ static void run_case(StepDriver &drv, const Hydro &hydro, const std::vector< Pri
   drv.totals(o.after);
   drv.state(o.state);
   o.physical = physical_state_problem(o.state);
+  o.nonfinite_origin.clear();
+  if (o.physical.compare(0, 9, "nonfinite") == 0 || o.trace.preclamp_nonfinite) {
+    // run the same case again (same order) and locate the stage that produces the first non-finite value
+    drv.load(prims);
+    drv.init_conserved(hydro);
+    drv.step(hydro, o.dt, c.order, c.seed, false, &o.nonfinite_origin);
+    if (o.nonfinite_origin.empty())
+      o.nonfinite_origin = "not-reproduced";
+  }
   const size_t n = ref.before.size() / 5;
   for (int j = 0; j < 5; ++j)
     o.scale[j] = 0.;
@@ -204,12 +214,19 @@ static void judge(const Case &c, const Outcome &o, Stats &S, std::vector< Findin
                    fmt("stability limit %.17g on this layout, %.17g on the global array", o.dt_limit,
                        o.dt / DTFRACS[c.idt])});
   // always: finite and non-negative
+  if (!o.nonfinite_origin.empty()) {
+    // one key per stage of the step in which the first non-finite value arises; the totals are then
+    // meaningless and not judged
+    out.push_back({"C04:physical:nonfinite:arises-in-" + o.nonfinite_origin,
+                   (o.physical.empty() ? std::string("mass or energy not finite before the positivity clamp")
+                                       : o.physical) +
+                       "; first non-finite value appears in stage " + o.nonfinite_origin});
+    return;
+  }
   if (!o.physical.empty()) {
     const std::string what = o.physical.substr(0, o.physical.find(' '));
     out.push_back({"C04:physical:" + what, o.physical});
   }
-  if (o.trace.preclamp_nonfinite)
-    out.push_back({"C04:physical:nonfinite-before-clamp", "mass or energy not finite before the positivity clamp"});
   // conservation
   const bool periodic = geo.all_periodic(), walls = geo.walls_only();
   if (!periodic && !walls) {
@@ -301,6 +318,68 @@ static void assignments(const int grid[3], const std::vector< int > &alpha, cons
   }
 }
 
+/// emptiest states (8 denormal density, 9 exact vacuum) as inclusions in an
+/// 8-cell grid filled with a background state: single cells (first / last
+/// cell), slabs normal to each axis, everything empty except one gas cell, and
+/// (rest background) an inclusion with a supersonic cell as its +x or -x
+/// neighbour. Not pruned.
+static void inclusions(const int grid[3], const std::vector< int > &backgrounds, const std::vector< int > &jets,
+                       std::vector< std::string > &out) {
+  const int n = grid[0] * grid[1] * grid[2];
+  auto idx = [&](int ix, int iy, int iz) {
+    return (((ix + grid[0]) % grid[0]) * grid[1] + (iy + grid[1]) % grid[1]) * grid[2] + (iz + grid[2]) % grid[2];
+  };
+  std::vector< std::string > found;
+  for (int e : {8, 9}) {
+    for (int b : backgrounds) {
+      std::string base(n, '0' + b);
+      std::string s = base;
+      s[0] = '0' + e;
+      found.push_back(s);
+      s = base;
+      s[n - 1] = '0' + e;
+      found.push_back(s);
+      for (int axis = 0; axis < 3; ++axis) {
+        if (grid[axis] < 2)
+          continue;
+        s = base;
+        for (int ix = 0; ix < grid[0]; ++ix)
+          for (int iy = 0; iy < grid[1]; ++iy)
+            for (int iz = 0; iz < grid[2]; ++iz) {
+              const int c[3] = {ix, iy, iz};
+              if (c[axis] == 0)
+                s[idx(ix, iy, iz)] = '0' + e;
+            }
+        found.push_back(s);
+      }
+      s = std::string(n, '0' + e);
+      s[0] = '0' + b;
+      found.push_back(s);
+      s = std::string(n, '0' + e);
+      s[idx(1, 0, 0)] = '0' + b;
+      found.push_back(s);
+    }
+    for (int j : jets) {
+      std::string s(n, '0');
+      s[idx(1, 0, 0)] = '0' + e;
+      s[idx(0, 0, 0)] = '0' + j; // jet is the -x neighbour of the inclusion
+      found.push_back(s);
+      s = std::string(n, '0');
+      s[idx(1, 0, 0)] = '0' + e;
+      s[idx(2, 0, 0)] = '0' + j; // jet is the +x neighbour (periodic image on a 2-cell axis)
+      found.push_back(s);
+    }
+    // the two empty states next to each other in rest gas
+    std::string s(n, '0');
+    s[idx(0, 0, 0)] = '0' + e;
+    s[idx(1, 0, 0)] = '0' + (e == 8 ? 9 : 8);
+    found.push_back(s);
+  }
+  for (auto &s : found)
+    if (std::find(out.begin(), out.end(), s) == out.end())
+      out.push_back(s);
+}
+
 static std::vector< std::array< int, 3 > > layouts_of(const int grid[3]) {
   std::vector< std::array< int, 3 > > L;
   for (int a = 1; a <= 2; ++a)
@@ -371,6 +450,8 @@ static int replay(const Args &A, Result &R) {
   printf("stability limit %.17g, dt %.17g, %zu tasks, wall Mach %.6g, pre-clamp minima: mass %.6g energy %.6g%s\n",
          o.dt_limit, o.dt, o.trace.tasks_executed, o.trace.wall_mach, o.trace.preclamp_min_mass,
          o.trace.preclamp_min_energy, o.trace.safeguard() ? "  (positivity safeguard intervened)" : "");
+  if (!o.nonfinite_origin.empty())
+    printf("first non-finite value appears in stage: %s\n", o.nonfinite_origin.c_str());
   for (int j = 0; j < 5; ++j)
     printf("  total %-10s before %.17Lg after %.17Lg  change %.3Lg  tolerance %.3g\n", VARNAME[j], o.before[j],
            o.after[j], o.after[j] - o.before[j], TOL_K * DBL_EPSILON * o.scale[j]);
@@ -405,7 +486,7 @@ int main(int argc, char **argv) {
   // the 8-cell grids get the full alphabet (thorough) or a sub-alphabet (quick),
   // one representative per translation orbit
   const std::vector< int > full = {0, 1, 2, 3, 4, 5};
-  const std::vector< int > extended = {0, 1, 2, 3, 4, 5, 6, 7}; // 4-cell grid: plus Mach ~1.1-1.6 towards +-x
+  const std::vector< int > extended = {0, 1, 2, 3, 4, 5, 6, 7, 8, 9}; // 4-cell grid: plus Mach ~1.1-1.6 towards +-x, denormal density, exact vacuum
   // thorough tier: five of the six states per 8-cell grid: 2x2x2 without the -x state, 4x2x1 without the
   // hot-thin state (every state is on at least two grids; the 4-cell grid has all of them)
   const std::vector< int > big[2] = {{0, 1, 2, 3, 5}, {0, 1, 3, 4, 5}};
@@ -422,6 +503,9 @@ int main(int argc, char **argv) {
         alpha.push_back(ch - '0');
     }
     assignments(GRIDS[g], alpha, !small, cells_of_grid[g]);
+    if (!small && A.get(key).empty())
+      inclusions(GRIDS[g], thorough ? std::vector< int >{0, 1, 3, 4} : std::vector< int >{0, 3},
+                 thorough ? std::vector< int >{3, 4} : std::vector< int >{3}, cells_of_grid[g]);
   }
   std::unique_ptr< Hydro > hydros[4];
   for (int i = 0; i < 4; ++i)
